@@ -114,6 +114,8 @@ class CFG:
             return "all"
         t = h.type
         names = [ast.unparse(e) for e in (t.elts if isinstance(t, ast.Tuple) else [t])]
+        if "BaseException" in names:
+            return "all"
         if kind == "x-await":
             if any(n in CATCH_ALL_AWAIT for n in names):
                 return "all"
